@@ -169,7 +169,7 @@ package store
 // primary are closed on every error path after they were opened; re-bucketing is attempted only
 // for the bit-size mismatch error and the index is reopened only if it succeeded.
 //@ func OpenStore(ctx context.Context, primaryType string, dataPath string, indexPath string, immutable bool, options ...Option) (s *Store, err error)  property C17 C09
-//@   modifies ctx.$done, fp(FC), heap("/store/index."), heap("/store/freelist."), heap("/store/primary/"), heap("os.File"), heap("store.config.")
+//@   modifies ctx.$done, fp(CTX), fp(FC), heap("/store/index."), heap("/store/freelist."), heap("/store/primary/"), heap("os.File"), heap("bufio."), heap("store.config.")
 //@   ghost var gfl *freelist.FreeList = ptr(freelist.FreeList, 0)
 //@   ghost var gprim bool = false
 //@   ghost var gpclosed bool = false
